@@ -337,6 +337,9 @@ let handle toks =
     Hashtbl.reset counts;
     "counters " ^ String.concat " " (List.map (fun (k, v) -> k ^ "=" ^ string_of_int v) (List.sort compare l))
   | "st" :: rest -> do_stat (sread_of rest)
+  | ["setdmg"; _; p] when String.length p > 0 && p.[0] = '!' ->
+    (* an object that is no damage profile: the setter refuses it (TypeError) and keeps what it had *)
+    "exn TypeError"
   | ["setdmg"; f; p] ->
     let (x, r) = xstep !dur !xw (XSetDefaultDmg (ni f, prof_of p)) in
     xw := x; (match r with XR r -> res_s r | XS _ -> "ok")
